@@ -8,9 +8,13 @@ import (
 // Generic persistence ops shared by all in-memory machines (codes >= 20):
 // (20 i)            WriteTo            -> obs (outcome (stream ret))
 // (21 i src extra)  ReadFrom(stream recorded at step src ++ extra) into instance i
-//                   model form (21 i stream)        -> obs (outcome (ret consumed))
+//
+//	model form (21 i stream)        -> obs (outcome (ret consumed))
+//
 // (22 i src)        every strict prefix of that stream into a fresh target
-//                   model form (22 i stream)        -> obs (class...)  0 ok / 1 error / 2 panic
+//
+//	model form (22 i stream)        -> obs (class...)  0 ok / 1 error / 2 panic
+//
 // (23 i j)          Equals                           -> obs outcome bool
 // (24 i)            Export (JSON)                    -> obs parsed document token
 // (25 i src)        Import(export recorded at step src) into instance i; model form (25 i doc)
@@ -49,9 +53,48 @@ func doWriteTo(c binCodec) (Tok, []byte) {
 	return TOk(TL(TBs(buf.Bytes()), TNu(uint64(n)))), buf.Bytes()
 }
 
+// chunkReader hands out the stream in short reads (an io.Reader may return fewer bytes than asked
+// for without an error: sockets, pipes, small bufio readers do): 1, 3, 2, 7, 1, ... bytes per call.
+type chunkReader struct {
+	r *bytes.Reader
+	k int
+}
+
+var chunkSizes = []int{1, 3, 2, 7, 1, 5}
+
+func (c *chunkReader) Read(p []byte) (int, error) {
+	n := chunkSizes[c.k%len(chunkSizes)]
+	c.k++
+	if n > len(p) {
+		n = len(p)
+	}
+	return c.r.Read(p[:n])
+}
+
+// readerFor picks, from the stream itself (so that a replay picks the same), a plain reader, a
+// one-byte-at-a-time reader or the chunked one.
+func readerFor(rd *bytes.Reader, sel int) io.Reader {
+	switch sel % 3 {
+	case 1:
+		return iotestOneByte{rd}
+	case 2:
+		return &chunkReader{r: rd}
+	}
+	return rd
+}
+
+type iotestOneByte struct{ r *bytes.Reader }
+
+func (o iotestOneByte) Read(p []byte) (int, error) {
+	if len(p) == 0 {
+		return 0, nil
+	}
+	return o.r.Read(p[:1])
+}
+
 func doReadFrom(c binCodec, stream []byte) Tok {
 	rd := bytes.NewReader(stream)
-	n, err := c.ReadFrom(rd)
+	n, err := c.ReadFrom(readerFor(rd, len(stream)))
 	if err != nil {
 		return TErr(errGeneric)
 	}
@@ -74,7 +117,10 @@ func doPrefixBin(fresh func() binCodec, stream []byte) Tok {
 	out := make([]uint64, len(stream))
 	for cut := 0; cut < len(stream); cut++ {
 		c := fresh()
-		out[cut] = uint64(classOf(func() error { _, err := c.ReadFrom(bytes.NewReader(stream[:cut])); return err }))
+		out[cut] = uint64(classOf(func() error {
+			_, err := c.ReadFrom(readerFor(bytes.NewReader(stream[:cut]), cut/2))
+			return err
+		}))
 	}
 	return TListU(out)
 }
